@@ -156,44 +156,127 @@ Proof.
     destruct (permitted gl wl gam k); [|discriminate]. eapply IH; eauto.
 Qed.
 
+(* ---- cost-bounded variants (the enumeration only has to look below the incumbent) ---- *)
+(* goals of the guarded space, not descending into children that cost more than ub *)
+Fixpoint goals_upto (ub : Q) (fuel : nat) (fa : fargs) (s : dstate) : list dstate :=
+  if goal_state fa s then [s]
+  else match fuel with
+       | O => []
+       | S f => match next_states fa s with
+                | Val l => flat_map (fun s' => if Qleb (cost s') ub then goals_upto ub f fa s' else []) l
+                | _ => []
+                end
+       end.
+
+Lemma goals_upto_sound ub fa : forall fuel s g, In g (goals_upto ub fuel fa s) -> reach fa s g /\ goal fa g.
+Proof.
+  induction fuel as [|f IH]; intros s g H; cbn [goals_upto] in H.
+  - destruct (goal_state fa s) eqn:Gs; [|contradiction]. destruct H as [<-|[]]. split; [constructor|exact Gs].
+  - destruct (goal_state fa s) eqn:Gs.
+    + destruct H as [<-|[]]. split; [constructor|exact Gs].
+    + destruct (next_states fa s) as [l| | |] eqn:E; try contradiction.
+      apply in_flat_map in H. destruct H as (s'&Is'&Ig). destruct (Qleb (cost s') ub); [|contradiction].
+      destruct (IH _ _ Ig) as (R&Gg). split; auto. econstructor; [exists l; split; eauto|exact R].
+Qed.
+
+(* gammas of the specification's gate list are >= 1 *)
+Definition sgammas_ok (gs : list sgate) : Prop := forall q1 q2 q, In (q1, q2, Some q) gs -> (1 <= q)%Q.
+
+Lemma sgates_of_ok gs : gammas_ok gs -> sgammas_ok (sgates_of gs).
+Proof.
+  intros G q1 q2 q I. unfold sgates_of in I. apply in_map_iff in I. destruct I as (g&E&Ig).
+  injection E as _ _ Eg. exact (G g Ig q Eg).
+Qed.
+
+Lemma kind_factor_ge_1 gam k : (forall q, gam = Some q -> (1 <= q)%Q) -> (1 <= kind_factor gam k)%Q.
+Proof. intros H. destruct k; cbn [kind_factor]; try discriminate. destruct gam as [q|]; [now apply H|discriminate]. Qed.
+
+Lemma replay_cost_ge gl wl : forall gs A st c st' c', sgammas_ok gs -> (0 <= c)%Q ->
+  replay gl wl gs A st c = Some (st', c') -> (c <= c')%Q.
+Proof.
+  induction gs as [|[[q1 q2] gam] gs IH]; intros [|k A] st c st' c' G P H; cbn [replay] in H; try discriminate.
+  - inversion H; subst. apply Qle_refl.
+  - destruct (permitted gl wl gam k); [|discriminate].
+    assert (F : (1 <= kind_factor gam k)%Q).
+    { apply kind_factor_ge_1. intros q ->. apply (G q1 q2 q). left; reflexivity. }
+    assert (L : (c <= c * kind_factor gam k)%Q).
+    { rewrite <- (Qmult_1_r c) at 1. rewrite !(Qmult_comm c). now apply Qmult_le_compat_r. }
+    eapply Qle_trans; [exact L|]. eapply IH; [| |exact H].
+    + intros a b q I. apply (G a b q). right; exact I.
+    + eapply Qle_trans; [exact P|exact L].
+Qed.
+
+(* true: no assignment of permitted kinds that meets the width limit extends the prefix (st, c) to a cost below bound *)
+Fixpoint none_below (gl wl : bool) (W : nat) (bound : Q) (gs : list sgate) (st : segs) (c : Q) : bool :=
+  if Qleb bound c then true
+  else match gs with
+       | [] => negb (widths_ok W st)
+       | (q1, q2, gam) :: gs' =>
+           forallb (fun k => if permitted gl wl gam k
+                             then none_below gl wl W bound gs' (apply_kind st q1 q2 k) (Qmult c (kind_factor gam k))
+                             else true) kinds
+       end.
+
+Lemma none_below_sound gl wl W bound : forall gs A st c st' c', sgammas_ok gs -> (0 <= c)%Q ->
+  none_below gl wl W bound gs st c = true ->
+  replay gl wl gs A st c = Some (st', c') -> widths_ok W st' = true -> (bound <= c')%Q.
+Proof.
+  induction gs as [|[[q1 q2] gam] gs IH]; intros A st c st' c' G P N H Wk.
+  - cbn [none_below] in N. destruct (Qleb bound c) eqn:B.
+    + apply Qleb_true in B. eapply Qle_trans; [exact B|]. eapply replay_cost_ge; eauto.
+    + destruct A; cbn [replay] in H; [|discriminate]. inversion H; subst. rewrite Wk in N. discriminate.
+  - cbn [none_below] in N. destruct (Qleb bound c) eqn:B.
+    + apply Qleb_true in B. eapply Qle_trans; [exact B|]. eapply replay_cost_ge; eauto.
+    + destruct A as [|k A]; cbn [replay] in H; [discriminate|].
+      destruct (permitted gl wl gam k) eqn:Pk; [|discriminate].
+      rewrite forallb_forall in N. specialize (N k (kinds_complete k)). rewrite Pk in N.
+      assert (F : (1 <= kind_factor gam k)%Q).
+      { apply kind_factor_ge_1. intros q ->. apply (G q1 q2 q). left; reflexivity. }
+      eapply IH; [| |exact N|exact H|exact Wk].
+      * intros a b q I. apply (G a b q). right; exact I.
+      * eapply Qle_trans; [exact P|]. rewrite <- (Qmult_1_r c) at 1. rewrite !(Qmult_comm c). now apply Qmult_le_compat_r.
+Qed.
+
 (* the boolean check of pruning soundness for one request *)
 Definition min_goal (l : list dstate) : option dstate :=
   match l with [] => None | s :: r => Some (first_min s r) end.
 
-Definition le_opt (o : option dstate) (c : Q) : bool :=
-  match o with Some g => Qleb (cost g) c | None => false end.
-
 Definition pruning_check (gs : list gate_spec) (gl wl : bool) (W nq : nat) : bool :=
   let fa := mkF gs (search_actions gl wl) W in
-  let gr := greedy_of fa nq in
-  let budget := Nat.min (max_wire_cuts_circuit gs)
-                        (max_wire_cuts_gamma (match gr with Some g => gamma_UB g | None => 1%Q end)) in
-  let best := min_goal (all_goals (length gs) fa (init_state nq budget)) in
-  forallb (fun c => match gr with
-                    | Some _ => le_opt gr c || le_opt best c
-                    | None => false          (* a feasible assignment exists but greedy dead-ended *)
-                    end) (all_costs gl wl W (sgates_of gs) (segs_init nq) 1%Q).
+  match greedy_of fa nq with
+  | None => (* greedy dead-ended: then there must be no assignment that meets the width limit at all *)
+      match all_costs gl wl W (sgates_of gs) (segs_init nq) 1%Q with [] => true | _ => false end
+  | Some g =>
+      let budget := Nat.min (max_wire_cuts_circuit gs) (max_wire_cuts_gamma (gamma_UB g)) in
+      let bound := match min_goal (goals_upto (cost g) (length gs) fa (init_state nq budget)) with
+                   | Some b => if Qltb (cost b) (cost g) then cost b else cost g
+                   | None => cost g
+                   end in
+      none_below gl wl W bound (sgates_of gs) (segs_init nq) 1%Q
+  end.
 
-Lemma pruning_check_sound gs gl wl W mg nq : pruning_check gs gl wl W nq = true -> pruning_sound_for gs gl wl W mg nq.
+Lemma pruning_check_sound gs gl wl W mg nq : gammas_ok gs ->
+  pruning_check gs gl wl W nq = true -> pruning_sound_for gs gl wl W mg nq.
 Proof.
-  unfold pruning_check, pruning_sound_for. cbv zeta. intros H A c HA.
-  rewrite forallb_forall in H.
-  assert (IC : In c (all_costs gl wl W (sgates_of gs) (segs_init nq) 1%Q)).
-  { unfold assignment_cost in HA. destruct (replay _ _ _ _ _ _) as [[st c']|] eqn:E; [|discriminate].
-    destruct (widths_ok W st) eqn:Wk; [|discriminate]. inversion HA; subst c'. eapply all_costs_complete; eauto. }
-  specialize (H c IC).
+  unfold pruning_check, pruning_sound_for. cbv zeta. intros G H A c HA.
+  unfold assignment_cost in HA. destruct (replay _ _ _ _ _ _) as [[st c']|] eqn:E; [|discriminate].
+  destruct (widths_ok W st) eqn:Wk; [|discriminate]. inversion HA; subst c'. clear HA.
   set (fa := mkF gs (search_actions gl wl) W) in *.
-  destruct (greedy_of fa nq) as [g|] eqn:EG; [|discriminate].
-  apply orb_prop in H. destruct H as [H|H].
-  - left. exists g; split; auto. now apply Qleb_true.
-  - right. unfold le_opt, min_goal in H.
-    assert (SS : search_start fa mg nq = init_state nq (Nat.min (max_wire_cuts_circuit gs) (max_wire_cuts_gamma (gamma_UB g)))).
+  destruct (greedy_of fa nq) as [g|] eqn:EG.
+  - assert (SS : search_start fa mg nq = init_state nq (Nat.min (max_wire_cuts_circuit gs) (max_wire_cuts_gamma (gamma_UB g)))).
     { unfold search_start, search_budget. unfold greedy_of in EG.
       destruct (greedy_cut_optimization nq fa) as [o| | |]; try discriminate. subst o. reflexivity. }
     rewrite SS.
-    destruct (all_goals _ _ _) as [|s r] eqn:EA; [discriminate|].
-    pose proof (first_min_in r s) as I. rewrite <- EA in I. apply all_goals_sound in I. destruct I as (R&Gg).
-    exists (first_min s r). split; [exact R|split; [exact Gg|now apply Qleb_true]].
+    assert (P1 : (0 <= 1)%Q) by discriminate.
+    pose proof (none_below_sound _ _ _ _ _ _ _ _ _ _ (sgates_of_ok _ G) P1 H E Wk) as L.
+    destruct (goals_upto _ _ _ _) as [|s r] eqn:EA; cbn [min_goal] in L.
+    + left. exists g; split; auto.
+    + destruct (Qltb (cost (first_min s r)) (cost g)) eqn:LT.
+      * right. pose proof (first_min_in r s) as I. rewrite <- EA in I. apply goals_upto_sound in I. destruct I as (R&Gg).
+        exists (first_min s r). split; [exact R|split; [exact Gg|exact L]].
+      * left. exists g; split; auto.
+  - exfalso. pose proof (all_costs_complete _ _ _ _ _ _ _ _ _ E Wk) as I.
+    destruct (all_costs _ _ _ _ _ _); [contradiction|discriminate].
 Qed.
 
 (* ------------------------------------------------------------------------------------ *)
@@ -241,11 +324,11 @@ Definition domain_check (lab : nat -> nat * nat) (maxq : nat) (gammas : list Q) 
     (circuits_upto maxq gammas n).
 
 Lemma domain_check_sound lab maxq gammas n : domain_check lab maxq gammas n = true ->
-  forall c used, In (c, used) (circuits_upto maxq gammas n) ->
+  forall c used, In (c, used) (circuits_upto maxq gammas n) -> gammas_ok (gates_from lab 0 c) ->
   forall nq W gl wl mg, used <= nq <= maxq -> 1 <= W <= maxq -> In (gl, wl) lo_combos ->
   pruning_sound_for (gates_from lab 0 c) gl wl W mg nq.
 Proof.
-  unfold domain_check. intros H c used Ic nq W gl wl mg Hn HW Ilo.
+  unfold domain_check. intros H c used Ic Gk nq W gl wl mg Hn HW Ilo.
   rewrite forallb_forall in H. specialize (H _ Ic). cbn beta iota in H.
   rewrite forallb_forall in H. assert (In nq (seq used (S maxq - used))) as Inq by (apply in_seq; lia).
   specialize (H _ Inq). rewrite forallb_forall in H.
@@ -284,7 +367,7 @@ Qed.
 Lemma pruning_sound_bounded lab c used : In (c, used) c08_domain ->
   forall nq W gl wl mg, used <= nq <= 4 -> 1 <= W <= 4 -> In (gl, wl) lo_combos ->
   pruning_sound_for (gates_from lab 0 c) gl wl W mg nq.
-Proof. intros I. exact (domain_check_sound lab 4 [3%Q; 7%Q] 3 (c08_domain_checked lab) c used I). Qed.
+Proof. intros I. exact (domain_check_sound lab 4 [3%Q; 7%Q] 3 (c08_domain_checked lab) c used I (c08_domain_gammas_ok lab c used I)). Qed.
 
 (* ------------------------------------------------------------------------------------ *)
 (* flag soundness against the specification                                               *)
